@@ -856,6 +856,98 @@ def run_methods(case):
                 methods=discover(s) if case.get("list_methods") else None)
 
 
+# ------------------------------------------------------------------ replace(old, new) on views
+
+REPLACE_STREAMS = {
+    # structural classes of (view, pattern) for which the pinned old-style replace works on the parent string and is
+    # known to answer differently from the view's string; they are keyed separately so that every other case stays clean
+    "length-changing": "replace:length-changing:partial-or-reversed-view",
+    "strided": "replace:strided-view-multichar",
+    "straddle": "replace:partial-view-straddle",
+    "overlap": "replace:reversed-view-overlapping-matches",
+}
+
+
+def occurrences(text, pat):
+    return [i for i in range(len(text) - len(pat) + 1) if text.startswith(pat, i)] if pat else []
+
+
+def replace_class(orc, shown, old, new):
+    """classification from the plain-string side only (parent string, displayed indices, pattern)"""
+    full_fwd = orc.sign > 0 and orc.idx == list(range(len(orc.P)))
+    if len(old) != len(new):
+        return "clean" if full_fwd else "length-changing"
+    if len(old) == 1 or not orc.idx:
+        return "clean"
+    if orc.stride > 1 and len(orc.idx) > 1:
+        return "strided"
+    po = old[::-1] if orc.sign < 0 else old
+    if orc.sign < 0 and orc.mt in COMP:
+        po = po.translate(COMP[orc.mt])
+    lo, hi = min(orc.idx), max(orc.idx) + 1
+    for i in occurrences(orc.P, po):
+        if i < lo < i + len(po) or i < hi < i + len(po):
+            return "straddle"
+    if orc.sign < 0:
+        occ = occurrences(shown, old)
+        if any(b - a < len(old) for a, b in zip(occ, occ[1:])):
+            return "overlap"
+    return "clean"
+
+
+def run_replace(case):
+    """str(view.replace(o, n)) == str(view).replace(o, n) for 1-, 2- and 3-character patterns"""
+    impl, mt, p, off = case["impl"], case["mt"], case["p"], case["off"]
+    s, origin = make_origin(impl, mt, p, off, case.get("origin", "standalone"))
+    orc = SOracle(p, mt, off)
+    for op in case["ops"]:
+        op = tuple(op)
+        try:
+            s2 = apply_sop(s, op)
+        except Exception:  # noqa: BLE001
+            continue
+        o2 = orc.apply(op)
+        s = s2
+        if isinstance(o2, SOracle):
+            orc = o2
+    shown = orc.string()
+    bad, counts = [], {}
+    if str(s) != shown or not hasattr(s, "replace"):
+        return dict(n=0, bad=[], counts={}, skipped="view string differs from the oracle (reported by the chain block)")
+    view_dir = "rev-view" if s._seq.step < 0 else "fwd-view"
+    partial = "partial" if len(orc.idx) < len(orc.P) else "whole"
+    pats = [tuple(x) for x in case["patterns"]]
+    # patterns taken from the displayed string itself (so that they occur), replaced by a same-length word
+    fill = {"dna": "GTN", "rna": "GUN", "protein": "KLM", "text": "XYZ"}[mt]
+    for k in (1, 2, 3):
+        for st in case.get("starts", []):
+            if shown and len(shown) >= k:
+                w = shown[st % (len(shown) - k + 1):][:k]
+                pats.append((w, fill[:k]))
+    seen = set()
+    steered = {}
+    for old, new in pats:
+        if (old, new) in seen or not old:
+            continue
+        seen.add((old, new))
+        cls = replace_class(orc, shown, old, new)
+        if cls != "clean" and not case.get("known_witness"):
+            # the four structural classes are listed findings: emitted once each by the corpus witnesses, the generators
+            # steer away from them everywhere else (counted, not evaluated)
+            steered[cls] = steered.get(cls, 0) + 1
+            continue
+        expected = catch(lambda: shown.replace(old, new))
+        got = catch(lambda: str(s.replace(old, new)))
+        cell = f"{cls}|{view_dir}|{partial}|len{min(len(old), 3)}"
+        counts[cell] = counts.get(cell, 0) + 1
+        if got != expected:
+            key = REPLACE_STREAMS.get(cls) or f"seq:{impl}:replace:{view_dir}" + ("" if len(old) == 1 else ":multichar")
+            bad.append(dict(key=key, method="replace", args=[old, new], on_view=jsonable(got), on_fresh=jsonable(expected),
+                            view_str=shown, stream=cls, view_state=[view_dir, partial, f"stride{orc.stride}"],
+                            parent=orc.P, shown_parent_indices=orc.idx[:40]))
+    return dict(n=len(seen) - sum(steered.values()), bad=bad, counts=counts, origin=origin, steered=steered)
+
+
 # ------------------------------------------------------------------ dispatch
 
 def run_case(case):
@@ -872,6 +964,8 @@ def run_case(case):
         return run_comptable(case)
     if kind == "methods":
         return run_methods(case)
+    if kind == "replace":
+        return run_replace(case)
     raise ValueError(kind)
 
 
